@@ -109,10 +109,10 @@ R.contract(
                 "content": "forall(0, len(lst), lambda a: lst[a] == oldel(lst, pi[a]))",
                 "injective": "forall(0, len(lst), lambda a: forall(0, len(lst), lambda b: implies(pi[a] == pi[b], a == b)))",
             },
-            modifies=["lst", "pi", "self.*"],
+            modifies=["lst[]", "pi[]", "self.*"],
         )
     },
-    modifies=["lst", "self.*"],
+    modifies=["lst[]", "self.*"],
     props=["C18", "C17"],
 )
 
@@ -128,7 +128,7 @@ R.contract(
         "removes_exactly_result": "exists(0, oldlen(lst), lambda p: result == oldel(lst, p) and "
         "forall(0, len(lst), lambda a: lst[a] == ite(a == p, oldel(lst, oldlen(lst) - 1), oldel(lst, a))))",
     },
-    modifies=["lst", "self.*"],
+    modifies=["lst[]", "self.*"],
     allocates=False,
     props=["C18"],
 )
